@@ -104,6 +104,19 @@ def check_smt2(smt2, want=(), timeout_ms=None, use_cvc5=True):
         out["model_text"] = str(m)[:4000]
     elif r == z3.unknown:
         out["reason"] = s.reason_unknown()
+        # portfolio: the same query under other seeds / arithmetic settings (stability under load)
+        for (k, v) in (("smt.random_seed", 7), ("smt.arith.nl", False), ("smt.random_seed", 23)):
+            s2 = z3.Solver(ctx=ctx)
+            s2.set("timeout", max(5000, timeout_ms // 2))
+            if _has_quant(asserts):
+                s2.set("smt.mbqi", False)
+            s2.set(k, v)
+            s2.add(*asserts)
+            if s2.check() == z3.unsat:
+                out["status"] = "unsat"
+                out["solver"] += " (%s=%s)" % (k, v)
+                out["seconds"] = time.time() - t0
+                return out
         if use_cvc5:
             c = check_cvc5(smt2)
             if c["status"] == "unsat":
